@@ -116,6 +116,43 @@ Definition expected (S : scenario) (retry : nat) : list bytes * ending :=
       end
   end.
 
+(* ---- what the producer must see ------------------------------------------------------------ *)
+
+(* Interests one key receives: up to and including the first that is not lost, at most [attempts] *)
+Fixpoint burst_len (f : nat -> fate) (n attempts : nat) : nat :=
+  match attempts with
+  | O => O
+  | S a => match f n with Lost => S (burst_len f (S n) a) | _ => 1 end
+  end.
+Definition seg_req (S : scenario) (cfg : config) (i : nat) : request := mk_req cfg (seg_name (obj S) i) false.
+Definition disc_req (S : scenario) (cfg : config) : request := mk_req cfg (prefix S) true.
+Definition asks_for (S : scenario) (cfg : config) (k : key) (rq : request) : list request :=
+  repeat rq (burst_len (fate_of S k) 0 (attempts_of (retry_times cfg))).
+
+(* segments i, i+1, …, i+len-1, then the Interest for the segment that does not exist *)
+Fixpoint walk_asks (S : scenario) (cfg : config) (i len : nat) : list request :=
+  match len with
+  | O => repeat (seg_req S cfg i) (attempts_of (retry_times cfg))
+  | Datatypes.S l =>
+      asks_for S cfg (KSeg i) (seg_req S cfg i) ++
+      match result_of S (retry_times cfg) (KSeg i) with
+      | KAnswered => if is_final (obj S) i then [] else walk_asks S cfg (Datatypes.S i) l
+      | _ => []
+      end
+  end.
+
+Definition expected_asks (S : scenario) (cfg : config) : list request :=
+  asks_for S cfg KDisc (disc_req S cfg) ++
+  match result_of S (retry_times cfg) KDisc with
+  | KAnswered =>
+      match disc S with
+      | DWhole _ _ _ => []
+      | DSeg O => if is_final (obj S) 0 then [] else walk_asks S cfg 1 (nseg (obj S) - 1)
+      | DSeg _ => walk_asks S cfg 0 (nseg (obj S))
+      end
+  | _ => []
+  end.
+
 (* ---- vocabulary of the headline theorems --------------------------------------------------- *)
 
 (* the object has N >= 1 segments and exactly the last one is designated final *)
